@@ -23,6 +23,7 @@ in C08 to be the maximum matching number), the same function the driver runs.
 | "If the threshold cannot be met (…failures during transfer), the upload fails with an unhappiness error" | `unhappy_iff_survivors_below_threshold` (error ⇔ no matching of `happy` pairs in pre-existing ∪ surviving landlords at the verdict; success ⇔ one exists), `loss_rechecks_whole_layout` (every loss event re-decides on the whole remaining layout, also when the lost share still has another holder), `unhappy_selection_fails`, `assertion_iff_duplicate_allocation` (the only other exit of the model; DESIGN 8.9, outside the statement) |
 | "(too few servers, full … servers)": whether the selector could have reached a happier layout | not covered here: the query rounds of `Tahoe2ServerSelector` are modelled only through their result (`pre`, `alloc`); optimality of the placement is C07; correspondence + monitor only |
 | "leaves no partial shares visible to readers" | `failure_leaves_no_partial_share` (every bucket writer got `abort`; any share whose remote `close` was or may still be issued — hence the only ones a server can make visible — received every byte, for every order of answers including those after the error); that `abort` deletes an unfinished share and only `close` publishes is C22 |
+| "the shares it … found": the pre-existing shares counted are complete, readable shares | model input assumption, not a theorem: `pre` = shares reported by `get_buckets` / `alreadygot`, which a storage server gives for final (closed) shares only (C22 `visible_iff_closed`); so `success_layout_has_matching` is over complete shares. Tied by the monitor on concurrent uploads of one file (an upload stalled before close, a second one meanwhile, then timeout / disconnect / failure / completion of the first): every share found or placed must be complete in the server's final share directory when success is reported, the real layout's happiness ≥ threshold, the cap readable |
 | quantifier: "failures injected on any allocate/write/close call, and every response ordering" | all theorems quantify over every `pre`, `alloc`, failure script, close-answer order and late-answer tail; allocate-time faults enter only through (`pre`, `alloc`) — monitor only |
 -/
 namespace Tahoe.C06
